@@ -183,7 +183,8 @@ func checkC13(c C13Case) Outcome {
 	rel := "tests/regression/tests/REQUEST-" + c.Rule[:3] + "-X/" + c.Rule + c.Ext
 	other := "tests/regression/tests/REQUEST-911-Y/911100.yaml"
 	otherContent := "---\ntests:\n  - test_id: 1\n  - test_id: 2\n"
-	tree := cli.Tree{"regex-assembly/": "", rel: content, other: otherContent}
+	later := "tests/regression/tests/REQUEST-999-Z/999100.yaml"
+	tree := cli.Tree{"regex-assembly/": "", rel: content, other: otherContent, later: otherContent, "tests/regression/tests/REQUEST-999-Z/notes.txt": "not a test file\n"}
 	root := sb.Path("crs")
 	if err := tree.Write(root); err != nil {
 		panic(err)
